@@ -106,7 +106,15 @@ def cases(tier, seed):
             d2 = rng.sample(d2, 1500)
         progs += d2
         # calls of other registered functions
-        progs += [('CALL:a * b|g(a, b) + g(b, a)', 2), ('CALL:~a|g(a) * g(b)', 2), ('CALL:a ^ b|g(a, g(a, b))', 2)]
+        progs += [('CALL:a * b=>g(a, b) + g(b, a)', 2), ('CALL:~a=>g(a) * g(b)', 2), ('CALL:a ^ b=>g(a, g(a, b))', 2)]
+        # ... registered in the OTHER mode than the caller (numeric tape calling a symbolic=True function and vice versa),
+        # with coefficient access / sums / products of the nested result
+        progs += [('CALLX:a | b=>g(a, b).e * a', 2), ('CALLX:a | b=>a + g(a, b)', 2), ('CALLX:a * b=>g(a, b) ^ b', 2), ('CALLX:~a=>g(a) * b - g(b)', 2),
+                  ('CALLX:a ^ b=>2 * g(a, b) + g(b, a).grade(2)', 2)]
+        # truth value and equality of multivectors inside f: outside the supported list (may raise, may never differ)
+        progs += [('LENIENT:BODY:w = a.grade(1) ^ b;return w if w else a + b', 2), ('LENIENT:BODY:return a * 2 if a == b else a - b', 2),
+                  ('LENIENT:BODY:return a + b if a != b else a', 2),
+                  ('LENIENT:BODY:if a | b:;    return a;return b', 2)]
         if tier == 'thorough':
             for _ in range(1500 // len(cfgs)):
                 e = _random_tree(rng, U, B, 3)
@@ -130,7 +138,7 @@ def cases(tier, seed):
                     # inverses of intermediate results: keep the operands sparse (generation time)
                     keys = [list(rng.choice([p for p in pats_ if len(p) <= 3])) for _ in range(nargs)]
                 modes = ['plain']
-                if d == 2 and (i + j) % 3 == 0:
+                if d == 2 and ((i + j) % 3 == 0 or src.startswith(('CALLX:', 'LENIENT:BODY:'))):
                     modes.append('symbolic')
                 out.append(dict(kind='program', cfg=cfg, src=src, nargs=nargs, keys=keys, modes=modes))
     # several registered functions on ONE algebra (shared name space): compile and call all, then call all again
@@ -191,7 +199,11 @@ def _random_tree(rng, U, B, depth):
 def _compile(src, nargs, name):
     args = ', '.join('ab'[:nargs]) if nargs <= 2 else 'a, b, c'
     ns = {}
-    exec(f'def {name}({args}):\n    return {src}\n', ns)
+    if src.startswith('BODY:'):
+        body = '\n'.join('    ' + ln for ln in src[5:].split(';'))
+        exec(f'def {name}({args}):\n{body}\n', ns)
+    else:
+        exec(f'def {name}({args}):\n    return {src}\n', ns)
     return ns[name], ns
 
 
@@ -220,14 +232,16 @@ def run_case(desc, V):
         args = [mv(alg, V, 'ab'[i], desc['keys'][i]) for i in range(nargs)]
         if src == 'a.sqrt()' and V.symbolic and mode == 'direct':
             sym.cur().assume(args[0].values()[0].t > 0, 'scalar part > 0 (sqrt domain)')
-        if src.startswith('CALL:'):
-            gsrc, fsrc = src[5:].split('|')
+        if src.startswith('CALL:') or src.startswith('CALLX:'):
+            crossed = src.startswith('CALLX:')
+            gsrc, fsrc = src.split(':', 1)[1].split('=>')
             gargs = 2 if 'b' in gsrc else 1
             g, _ = _compile(gsrc, gargs, 'g')
             if mode == 'direct':
                 gg = g
             else:
-                gg = alg.register(g, symbolic=(mode == 'symbolic')) if mode == 'symbolic' else alg.register(g)
+                inner_symbolic = (mode == 'symbolic') != crossed
+                gg = alg.register(g, symbolic=True) if inner_symbolic else alg.register(g)
             ns = {'g': gg}
             exec(f'def {name}(a, b):\n    return {fsrc}\n', ns)
             f = ns[name]
@@ -287,6 +301,12 @@ def _feature(src):
     for m in ('norm()', 'normalized()', 'sqrt()'):
         if '.' + m in src:
             feats.append(m[:-2])
+    if src.startswith('CALLX:'):
+        # (a coefficient of the nested result times a multivector fails under symbolic=True for the same reason as any
+        #  coefficient access there: the known finding about RationalPolynomial coefficients)
+        return 'coefficient-access' if re.search(r'\.e[0-9a-f]*\b', src) else 'nested-registered-other-mode'
+    if 'BODY:' in src:
+        return 'truth-value-or-equality'
     if src.startswith('CALL:'):
         feats.append('nested-registered')
     # one feature per key, in a fixed priority order, so that the set of possible keys does not
